@@ -62,7 +62,7 @@ func runQuery(dir, name, text string, timeoutMs int) SolveResult {
 	// z3 4.8.12 is unsound on sequences whose elements are datatypes when quantified axioms are present
 	// (it answers unsat on satisfiable formulas; minimal reproduction in DESIGN.md): it is not consulted
 	// for such queries.
-	seqOfData := strings.Contains(text, "(Seq D_") || strings.Contains(text, "(Seq Any") || strings.Contains(text, "(Seq (Seq")
+	seqOfData := strings.Contains(text, "(Seq ")
 	active := 0
 	for _, s := range solvers {
 		if seqOfData && s.Name == "z3-4.8.12" {
